@@ -121,10 +121,16 @@ func condProgram(name string, e *Expr, kind int) *Prog {
 		body = []Stmt{{K: "while", HasCond: true, Cond: e, Body: []Stmt{yes}}, after}
 	case 2:
 		body = []Stmt{{K: "dowhile", Cond: e, Body: []Stmt{yes}}}
-	default:
+	case 3:
 		// as an elif condition, without else
 		first := &Expr{K: "leaf", Typ: "flag", Opnd: "FLAG_Q", Form: "bare"}
 		body = []Stmt{{K: "if", Arms: []Arm{{Cond: first, Body: []Stmt{no}}, {Cond: e, Body: []Stmt{yes}}}}, after}
+	case 4:
+		// all bodies empty: the condition is still evaluated (its AutoVar commands run)
+		body = []Stmt{{K: "if", Arms: []Arm{{Cond: e, Body: []Stmt{}}}}, after}
+	default:
+		first := &Expr{K: "leaf", Typ: "flag", Opnd: "FLAG_Q", Form: "bare"}
+		body = []Stmt{{K: "if", Arms: []Arm{{Cond: first, Body: []Stmt{}}, {Cond: e, Body: []Stmt{}}}, HasElse: true, Els: []Stmt{}}}
 	}
 	return &Prog{Scripts: []Script{{Name: name, Body: body}}}
 }
@@ -171,7 +177,7 @@ func checkC02(c *Ctx) {
 			}
 			idx := 0
 			e := instantiate(s, forms, variant, &idx, r)
-			kind := (si + vi) % 4
+			kind := (si + vi) % 6
 			p := condProgram(fmt.Sprintf("S%d_%d", si, vi), e, kind)
 			st := Style{R: r, Parens: (si+vi)%2 == 1, Layout: 0}
 			src := RenderProg(p, st)
